@@ -109,6 +109,54 @@ namespace ss
             ProbeState* s_;
         };
 
+        // an empty class that nevertheless declares itself stateful (its state lives outside the object, e.g. a
+        // global arena): it needs the lock like any other stateful allocator
+        struct EmptyStatefulProbe
+        {
+            using is_stateful = std::true_type;
+            static ProbeState*& state()
+            {
+                static ProbeState* s = nullptr;
+                return s;
+            }
+            struct In
+            {
+                In(const char* member)
+                {
+                    auto& s = *state();
+                    ++s.calls;
+                    if (!SimMutex::held_by_current())
+                        Sched::get().fail(std::string("unlocked_access: ") + member
+                                          + " of an empty but stateful wrapped allocator ran without the mutex "
+                                            "held");
+                    if (s.occupancy++ != 0)
+                        Sched::get().fail(std::string("overlap: ") + member
+                                          + " entered while another task was inside the wrapped allocator");
+                    sim_yield("probe.enter");
+                }
+                ~In()
+                {
+                    sim_yield("probe.exit");
+                    --state()->occupancy;
+                }
+            };
+            void* allocate_node(std::size_t size, std::size_t)
+            {
+                In in("allocate_node");
+                return ::operator new(size);
+            }
+            void deallocate_node(void* p, std::size_t, std::size_t) noexcept
+            {
+                In in("deallocate_node");
+                ::operator delete(p);
+            }
+            std::size_t max_node_size() const
+            {
+                In in("max_node_size");
+                return 1u << 20;
+            }
+        };
+
         // stateless: no lock may be taken, concurrent entry is fine by definition
         struct StatelessProbe
         {
@@ -239,8 +287,34 @@ namespace ss
         std::unique_ptr<TsPool>    tspool;
         auto&                      heap = SimHeap::get();
         heap.begin_op(0);
-        switch (variant % 5)
+        using EmptyStateful = fm::allocator_storage<fm::direct_storage<EmptyStatefulProbe>, SimMutex>;
+        std::unique_ptr<EmptyStateful> emptystateful;
+        switch (variant % 6)
         {
+        case 5:
+            EmptyStatefulProbe::state() = &st;
+            emptystateful.reset(new EmptyStateful(EmptyStatefulProbe{}));
+            for (int t = 0; t < ntasks; ++t)
+                sched.spawn(
+                    [&, t]
+                    {
+                        std::vector<void*> mine;
+                        for (auto& o : per[std::size_t(t)])
+                        {
+                            if (o.kind == "n" || o.kind == "a" || o.kind == "lk")
+                                mine.push_back(emptystateful->allocate_node(8 + std::size_t(o.arg(1)) % 100, 8));
+                            else if (o.kind == "f" && !mine.empty())
+                            {
+                                emptystateful->deallocate_node(mine.back(), 0, 8);
+                                mine.pop_back();
+                            }
+                            else if (o.kind == "mx")
+                                (void)emptystateful->max_node_size();
+                        }
+                        for (auto p : mine)
+                            emptystateful->deallocate_node(p, 0, 8);
+                    });
+            break;
         case 0:
             direct.reset(new Direct(Probe(&st)));
             for (int t = 0; t < ntasks; ++t)
@@ -340,7 +414,7 @@ namespace ss
         hash.add(st.calls);
         stats().hit("reach.scheduling_decisions", sched.steps);
         stats().hit("reach.preemptions", sched.preemptions);
-        stats().hit("variant." + std::to_string(variant % 5));
+        stats().hit("variant." + std::to_string(variant % 6));
         res.nontrivial = sched.preemptions >= 2;
         auto bad = [&](const char* cls, const std::string& facts)
         {
@@ -367,10 +441,10 @@ namespace ss
                 cls = "mutex_protocol";
             bad(cls.c_str(), sched.problem);
         }
-        else if (variant % 5 == 3 && SimMutex::locks_taken() != 0)
+        else if (variant % 6 == 3 && SimMutex::locks_taken() != 0)
             bad("stateless_locked", "a stateless allocator was wrapped with a real mutex ("
                                         + std::to_string(SimMutex::locks_taken()) + " lock operations)");
-        else if (variant % 5 != 3 && variant % 5 != 4 && st.occupancy != 0)
+        else if (variant % 6 != 3 && variant % 6 != 4 && st.occupancy != 0)
             bad("overlap", "occupancy counter not back to zero");
         if (res.fatal)
             return; // parked threads reference the objects above: leak them
@@ -380,6 +454,7 @@ namespace ss
         ref.reset();
         any.reset();
         stateless.reset();
+        emptystateful.reset();
         heap.begin_op(0);
         tspool.reset();
         heap.end_op();
